@@ -115,7 +115,7 @@ OpCases(maxLen) ==
 MetaCases ==
     {[kind |-> "meta", upd |-> u, rec |-> r, ao |-> a, deact |-> d, published |-> p, created |-> c, updated |-> up, ver |-> v,
       canonical |-> ci, equivalent |-> e] :
-        u \in BOOLEAN, r \in BOOLEAN, a \in {0, 1, 2}, d \in BOOLEAN, p \in BOOLEAN, c \in {0, 5}, up \in {0, 7}, v \in BOOLEAN,
+        u \in BOOLEAN, r \in BOOLEAN, a \in {0, 1, 2}, d \in BOOLEAN, p \in BOOLEAN, c \in {0, 5, 7}, up \in {0, 7}, v \in BOOLEAN,
         ci \in BOOLEAN, e \in BOOLEAN}
 
 CONSTANT MaxOps
